@@ -976,6 +976,14 @@ def gen_conv_float(S):
         if (a, b) not in S.dispatch:
             raise TranslateError(f"conv.rs: no FromSample<{a}> for {b}")
         o.append(f"Definition to_sample_{a}_{b} (m : mode) (x : {FLOATS[a][0]}.t) : res {FLOATS[b][0]}.t := {coq_name(S.dispatch[(a, b)])} m x.")
+    # the diagonal: no impl_from_sample! row may name it (a second impl would overlap the blanket impl), so what
+    # to_sample::<f32>() on an f32 dispatches to is the blanket `impl<S> FromSample<S> for S`, whose text is pinned
+    # (PINNED_HASHES["impl FromSample for S"]: `fn from_sample_(s: S) -> Self { s }`)
+    o.append("(* S = D: the blanket `impl<S> FromSample<S> for S { fn from_sample_(s: S) -> Self { s } }` (text pinned by the translator) *)")
+    for a in ("f32", "f64"):
+        if (a, a) in S.dispatch:
+            raise TranslateError(f"conv.rs: an impl_from_sample! row for {a} -> {a} next to the blanket identity impl")
+        o.append(f"Definition to_sample_{a}_{a} (m : mode) (x : {FLOATS[a][0]}.t) : res {FLOATS[a][0]}.t := Ok x.")
     return "\n".join(o) + "\n"
 
 
